@@ -16,6 +16,7 @@
 -/
 import TypedpyModel.Lemmas.RoundTrip
 import TypedpyModel.Lemmas.RoundTripX
+import TypedpyModel.Lemmas.TextStable
 namespace Typedpy.C05
 open Typedpy
 
@@ -475,6 +476,33 @@ theorem class_round_trip_none_attrs_example :
   decide
 
 
+/-! ### through JSON text -/
+
+/-- **C05 through JSON TEXT (partial: documents whose object keys are strings)**: for every class and instance of the
+    proved fragment, if the serialized document is a JSON document in the strict sense (`docStable`: every object key
+    is a string - the case unless a Map with Integer keys is involved, see `map_int_keys_text_counterexample`), then
+    `json.loads(json.dumps(·))` returns it unchanged and `Deserializer(cls).deserialize(json.loads(json.dumps(
+    Serializer(x).serialize())))` gives back exactly `x` -/
+theorem class_text_round_trip_partial (O : Oracles) (opts : DeserOpts) (c : ClassOpts)
+    (fields : List (String × FieldDecl)) (defaults : List (String × PyVal)) (x : PyVal)
+    (hf : inFrag O (.struct c fields defaults) x = true) :
+    ∃ j, serialize O (.struct c fields defaults) x = .ok j ∧ isJson j = true
+      ∧ (docStable j = true →
+          jsonRound j = some j
+          ∧ (jsonRound j).map (deserialize O opts (.struct c fields defaults)) = some (.ok x)) := by
+  rcases class_round_trip_partial O opts c fields defaults x hf with ⟨j, h1, h2, h3⟩
+  refine ⟨j, h1, h2, fun hs => ?_⟩
+  have := c05_jsonRound_stable j hs
+  exact ⟨this, by rw [this]; simp [h3]⟩
+
+theorem class_text_round_trip_example :
+    (match serialize exO exOuter exInst with
+      | .ok j => docStable j && (match (jsonRound j).map (deserialize exO {} exOuter) with
+          | some (.ok (.inst "Outer" [("n", .inst "Inner" [("a", .int 0)]), ("tag", .str ""), ("xs", .list [])])) => true
+          | _ => false)
+      | .error _ => false) = true := by
+  decide
+
 /-! ### known finding: Map with non-string keys through JSON text -/
 
 /-- **Known finding (`text-roundtrip-fails:map-key:integer`), kernel-checked on the model.**  The round-trip
@@ -572,6 +600,79 @@ theorem xclass_round_trip_example :
                 ("amounts", .list [.dec _, .dec _]), ("tags", .dict [(.str "a", .enumv "Level" "OFF"), (.str "", .none)])]) => true
             | _ => false)
         | .error _ => false) = true := by
+  decide
+
+/-! ### AnyOf over extension kinds -/
+
+/-- **AnyOf over extension kinds** (`AnyOf[DateField, Integer, None]`, `AnyOf[Enum by value, Integer]`, …): the value
+    is written by the option that owns it - not by the last non-None option -, read back by that option and stored
+    unchanged, provided the options listed before it are skipped by the serializer, the constructor and the
+    deserializer alike (`xFragAny`) -/
+theorem xanyof_round_trip_partial (XO : XOracles) (opts : DeserOpts) (xs : List XDecl) (v : PyVal)
+    (hf : xFragAny XO xs v = true) :
+    ∃ j, serX XO (.anyOf xs) v = .ok j ∧ isJson j = true
+      ∧ deserX XO opts false (.anyOf xs) j = .ok v ∧ validateX XO (.anyOf xs) v = .ok v := by
+  rcases xround_trip_any XO opts xs v hf with ⟨j, h1, h2, _, h4, h5⟩
+  exact ⟨j, by simpa [serX] using h1, h2, by simp [deserX, h4], by simpa [validateX] using h5⟩
+
+/-- non-vacuity, on the shape of a seeded change (an Optional union serialized through its LAST non-None option):
+    `when: AnyOf[DateField, Integer, None]` holding a date is written as the date's text, holding 3 as 3; both come back -/
+theorem xanyof_round_trip_example :
+    let u : XDecl := .anyOf [.temporal "date" "%Y-%m-%d" false, .base (.integer {}), .base .noneF]
+    let cls : XDecl := .struct { name := "Ev", required := [], accepts := ["Ev"], addl := false } [("when", u)]
+    xFrag exXO cls (.inst "Ev" [("when", .opaque "date:2020-01-31")]) = true
+    ∧ xFrag exXO cls (.inst "Ev" [("when", .int 3)]) = true
+    ∧ (match serializeX exXO cls (.inst "Ev" [("when", .opaque "date:2020-01-31")]) with
+        | .ok (.dict [(.str "when", .str "2020-01-31")]) => true | _ => false) = true
+    ∧ (match deserializeX exXO {} cls (.dict [(.str "when", .str "2020-01-31")]) with
+        | .ok (.inst "Ev" [("when", .opaque "date:2020-01-31")]) => true | _ => false) = true
+    ∧ (match serializeX exXO cls (.inst "Ev" [("when", .int 3)]) with
+        | .ok (.dict [(.str "when", .int 3)]) => true | _ => false) = true
+    ∧ (match deserializeX exXO {} cls (.dict [(.str "when", .int 3)]) with
+        | .ok (.inst "Ev" [("when", .int 3)]) => true | _ => false) = true := by
+  decide
+
+/-! ### compact single-field wrappers -/
+
+/-- **C05, compact single-field wrappers**: a class with exactly one field, required, additional properties off,
+    serialized with `compact=True`, is written as the serialized form of that field alone; with compact
+    deserialization on, a document that is not an object (an object would be read as the regular form: a compact
+    wrapper around a Map or a class is ambiguous by design) is read back by the field and handed to the constructor,
+    which gives back exactly the instance -/
+theorem xcompact_round_trip_partial (XO : XOracles) (opts : DeserOpts) (c : ClassOpts) (n : String) (x : XDecl)
+    (v : PyVal) (hreq : c.required = [n]) (hadd : c.addl = false)
+    (hf : xFrag XO (.struct c [(n, x)]) (.inst c.name [(n, v)]) = true) :
+    ∃ j, serializeCompactX XO (.struct c [(n, x)]) (.inst c.name [(n, v)]) = .ok j ∧ isJson j = true
+      ∧ ((∀ kvs, j ≠ .dict kvs) →
+          deserializeCompactX XO opts (.struct c [(n, x)]) j = .ok (.inst c.name [(n, v)])) := by
+  simp only [xFrag, xCanonAttrs, and_true_iff, beq_self_eq_true, if_true, List.isEmpty_nil] at hf
+  obtain ⟨_, _, ⟨hvn, hfx⟩, _⟩ := hf
+  have hvn' : v.isNone = false := by simpa using hvn
+  rcases xround_trip XO opts x v hfx with ⟨j, h1, h2, h3, h4, h5⟩
+  have hjn : j.isNone = false := by rw [h3]; exact hvn'
+  have hcf : xCompactField (.struct c [(n, x)]) = some (n, x) := by simp [xCompactField, hreq, hadd]
+  refine ⟨j, ?_, h2, fun hnd => ?_⟩
+  · simp [serializeCompactX, hcf, lookup, h1]
+  · have hcon : constructX XO (.struct c [(n, x)]) [(n, v)] = .ok (.inst c.name [(n, v)]) := by
+      simp [constructX, vConstruct, bindOk, hreq, hadd, lookup, validateFieldsX, argFor, hvn', h5, extrasOf]
+    have hd : deserX XO opts c.ignoreNone x j = .ok v := by rw [deserX_nonNone XO opts c.ignoreNone x j hjn]; exact h4
+    cases j with
+    | dict kvs => exact absurd rfl (hnd kvs)
+    | _ => simp [deserializeCompactX, hcf, hd, hcon]
+
+/-- non-vacuity, on the shape of a seeded change: a compact wrapper around an Enum serialized by value whose values
+    are strings that READ like JSON ("0", "true"): the compact form is the bare string "0", and it comes back as
+    the member, not as the number 0 -/
+theorem xcompact_round_trip_example :
+    let cls : XDecl := .struct { name := "Status", required := ["value"], addl := false, accepts := ["Status"] }
+      [("value", .enumVal "Code" [("OK", .str "0"), ("WARN", .str "1"), ("YES", .str "true")] false)]
+    xFrag exXO cls (.inst "Status" [("value", .enumv "Code" "OK")]) = true
+    ∧ (match serializeCompactX exXO cls (.inst "Status" [("value", .enumv "Code" "OK")]) with
+        | .ok (.str "0") => true | _ => false) = true
+    ∧ (match deserializeCompactX exXO {} cls (.str "0") with
+        | .ok (.inst "Status" [("value", .enumv "Code" "OK")]) => true | _ => false) = true
+    ∧ (match deserializeCompactX exXO {} cls (.int 0) with
+        | .error .valueErr => true | _ => false) = true := by
   decide
 
 end Typedpy.C05
